@@ -580,6 +580,9 @@ func (fx *FuncExec) applyContract(st *State, instr ssa.Instruction, fc *FuncCont
 		if strings.Contains(e.Text, "called(") || strings.Contains(e.Text, "calledsince(") || strings.Contains(e.Text, "ret(") {
 			continue
 		}
+		if e.Assumed {
+			fx.assumptions[fmt.Sprintf("trusted clause of %s (assumed at call sites, not checked): %s", shortName(name), e.Text)] = true
+		}
 		func() {
 			defer func() {
 				if r := recover(); r != nil {
